@@ -445,6 +445,14 @@ static ASMJIT_FAVOR_SIZE Error validate(InstDB::Mode mode, const BaseInst& inst,
               else {
                 // We don't validate absolute 64-bit addresses without an index register as this also depends
                 // on the target's base address. We don't have the information to do it at this moment.
+                //
+                // The exception is an absolute address (explicit, or implied by FS|GS) of ENQCMD[S] and MOVDIR64B that needs zero extension:
+                // the address-size override would also change the size of the destination address register.
+                if (inst_info._encoding == InstDB::kEncodingX86EnqcmdMovdir64b &&
+                    (m.addr_type() == Mem::AddrType::kAbs || (m.addr_type() == Mem::AddrType::kDefault && m.segment_id() >= SReg::kIdFs)) &&
+                    Support::is_uint_n<32>(offset)) {
+                  return make_error(Error::kInvalidAddress);
+                }
               }
             }
           }
